@@ -339,4 +339,28 @@ PROPERTIES = {
                        "checked beyond that witness. BOUNDED: relevance oracle and prune sub-multiset oracle on generated data.",
         "trusted": COMMON_TRUST + GRAPH_TRUST,
     },
+    "C10": {
+        "functions": ["static:precomputed_sites", "opfython.math.general.pre_compute_distance", "opfython.core.opf.OPF.get_distances",
+                      "opfython.core.subgraph.Subgraph._build", "opfython.core.subgraph.Subgraph.__init__"],
+        "lemmas": [],
+        "files": ["opfython/math/general.py", "opfython/core/opf.py", "opfython/stream/loader.py", "opfython/models/supervised.py",
+                  "opfython/models/semi_supervised.py", "opfython/models/unsupervised.py", "opfython/models/knn_supervised.py",
+                  "opfython/subgraphs/knn.py", "opfython/core/subgraph.py"],
+        "bounded": "bounded.c10",
+        "level": "other",
+        "explanation": "PROVED: pre_compute_distance fills M[a][b] = metric(data[a], data[b]) for every ORDERED pair and hands the "
+                       "matrix to np.savetxt with ',' for .csv and ' ' otherwise (three output names); get_distances returns the "
+                       "metric on every ordered pair of the training nodes; Subgraph._build gives node t the identifier I[t] and "
+                       "the features X[t]. STATIC (finite obligations over the AST): each of the 10 weight-read sites has the shape "
+                       "`M[P.idx][Q.idx]` / `F(P.features, Q.features)` with the SAME nodes in the SAME order, there is no other "
+                       "read of the matrix or call of the metric in the model files, _read_distances dispatches on the extension "
+                       "to the loader with the matching delimiter. Since every other statement of the algorithms is deterministic "
+                       "code over the weights (C07 reads obligations), equal weights at every read give equal results. ASSUMED: "
+                       "np.savetxt / np.loadtxt are an exact float64 text round trip ('%.18e'). BOUNDED: the end-to-end "
+                       "equivalence on real files (.txt and .csv, symmetric and asymmetric metrics, shuffled index sets), "
+                       "get_distances(normalize=True). KNOWN FINDING (open, F8): the semi-supervised model gives unlabeled "
+                       "samples positional identifiers, so the equivalence holds for it only when the dataset is laid out "
+                       "labelled-first.",
+        "trusted": COMMON_TRUST[:3] + ["np.savetxt/np.loadtxt exact text round trip (assumed, exercised by the bounded channel)"],
+    },
 }
